@@ -87,6 +87,12 @@ pub fn parse_dns_route(name: &str, fragment: &yaml::Yaml) -> Result<Option<Route
         }
         match handler {
             Some(HandlerType::Forward) | None => {
+                if servers.is_empty() {
+                    return Err(Error::InvalidConfig(format!(
+                        "{} of type forward needs a server in dns-servers",
+                        name
+                    )));
+                }
                 return Ok(Some(Route {
                     suffixes: suffix_domains,
                     dest: Handler::Forward(
